@@ -136,3 +136,50 @@ func VH_C12_follower_label() {
 	_ = a
 	vReach("end")
 }
+
+//verif:check C12,C09,C19 sched=coop maxsteps=400000 onunwind=violation stubs=env,valuefile,abslog,snapfs onblock=violation reach=both-done,end desc="two snapshots being completed at the same time in one store - the node's own (snapshot goroutine) and one installed by the leader (raft goroutine) - with every file-system call a scheduling point: each completes without error, and the label stored for each index is that snapshot's own label (index, term, configuration, size); the store's latest index is the larger one" bounds="two sinks (indexes 3 and 5, different terms and sizes), round-robin interleaving call by call of the real snapshotSink.done; retain 2"
+func VH_C12_concurrent_sinks() {
+	r := vMkRaft(1)
+	vSnapYield = true
+	snaps := &snapshots{dir: vDir + "/snapshots", retain: 2, used: map[uint64]int{}}
+	cfg := vStableConfig("cfg", 2, 1, 1)
+	type res struct {
+		meta snapshotMeta
+		err  error
+	}
+	run := func(index, term uint64, n int, out chan res) {
+		sink, err := snaps.new(index, term, cfg)
+		if err != nil {
+			out <- res{err: err}
+			return
+		}
+		for i := 0; i < n; i++ {
+			_, _ = sink.file.Write([]byte{byte(i)})
+		}
+		m, err := sink.done(nil)
+		out <- res{m, err}
+	}
+	ca, cb := make(chan res, 1), make(chan res, 1)
+	go run(3, 1, 2, ca)
+	go run(5, 2, 4, cb)
+	ra, rb := <-ca, <-cb
+	vSnapYield = false
+	vReach("both-done")
+	vAssert(ra.err == nil && rb.err == nil, "CS-both-snapshots-complete-without-error")
+	for _, want := range []struct {
+		index, term uint64
+	}{{3, 1}, {5, 2}} {
+		g := vSLookup(vMetaFile(snaps.dir, want.index))
+		vAssert(g != nil, "CS-label-published")
+		if g != nil {
+			var m snapshotMeta
+			vAssert(m.decode(bytes.NewReader(g.content)) == nil, "CS-label-decodes")
+			vAssert(m.index == want.index && m.term == want.term, "CS-label-is-that-snapshots-own")
+			d := vSLookup(vSnapFile(snaps.dir, want.index))
+			vAssert(d != nil && d.size == m.size, "CS-label-size-is-that-snapshots-data-size")
+		}
+	}
+	vAssert(snaps.index == 5 && snaps.term == 2, "CS-latest-is-the-newer-one")
+	_ = r
+	vReach("end")
+}
